@@ -58,5 +58,7 @@ verus! {
 
 //%slice parser.rs unmatched_key fn parse_mapping ;; let unmatched_e = if let Expression::Match(_, e) = &e { ;; block +2 ;; fn unmatched_key(e: Expression) -> Expression ;; unmatched_e
 
+//%slice optimiser.rs shake_patterns fn shake_1 ;; after:for ((field, cast, insensitive), patterns) in patterns { ;; block:} else { ;; fn shake_patterns(field: String, cast: bool, insensitive: bool, patterns: Vec<String>, regex: &mut Vec<Expression>, regex_set: &mut Vec<Expression>) ;; -
+
 } // verus!
 fn main() {}
